@@ -795,6 +795,9 @@ func (a *mavenAst) classes() []string {
 	if a.qsep == 'd' && !a.knownQual() {
 		c = append(c, "dotunknown")
 	}
+	if a.qsep == 'd' && len(a.nums) == 1 && a.nums[0] == "0" && !releaseQual(a.qual) {
+		c = append(c, "zerodot")
+	}
 	return c
 }
 
